@@ -324,6 +324,16 @@ def run(ctx):
         for order in (meta['order'], list(reversed(meta['order']))):
             ctx.count('directed:range-operator')
             one_workbook(ctx, spec, meta, order, config='mem', rng=random.Random(1))
+    if ctx.shard % 4 == 1 or not ctx.quick:
+        # one workbook of the sizes the small generator never reaches (vp.wbgen.big): every formula cell and some
+        # of the inputs in a shuffled order
+        spec, meta = wbgen.big(rng)
+        order = sorted(meta['formulas']) + rng.sample(meta['inputs'], 40)
+        rng.shuffle(order)
+        ctx.count('big_workbooks')
+        reads0 = ctx.counters.get('read_events', 0)
+        one_workbook(ctx, spec, meta, order, config='xlsx' if ctx.shard % 8 == 5 else 'mem', rng=rng)
+        ctx.count('big_workbook_read_events', ctx.counters.get('read_events', 0) - reads0)
     # read traces of the workbooks shipped with the repository
     realbooks.run_cases(ctx, realbooks.c04_case, realbooks.acyclic_books(), 6 if ctx.quick else 60, fraction=0.3)
     while not ctx.out_of_time():
